@@ -205,16 +205,15 @@ class Check:
 class C07(Check):
     pid = "C07"
     props_module = "TcheranVerif.Props.C07"
-    gen_modules = ("Magics",)
-    allow_native = ("native_decide",)
+    gen_modules = ("Magics", "MagicCert")
+    allow_native = ()   # no native_decide anywhere any more (kernel-only sweep, Proofs/Sweep)
     rule = ("exhaustive: every (kind, square, subset of the relevant-blocker mask) = 107,648 slider lookups, all 64 "
             "knight/king squares, 128 pawn entries, 4,096 square pairs; plus random full occupancies with "
             "irrelevant bits set. distinct = distinct requests; all are non-trivial (each is one table cell).")
     assumptions = ["Rust `get_unchecked` reads the slot whose index the model computes (index-in-range is a theorem; "
                    "the address computation itself is trusted)",
-                   "the 107,648-case sweep `sweep_ok` is discharged by native_decide (axiom Lean.ofReduceBool / "
-                   "sweep_ok._native.native_decide.*: trust in the Lean compiler for one closed Boolean term); every "
-                   "other C07 theorem is kernel-only"]
+                   "the 107,648-case sweep is decided by the kernel alone (27 parts, Proofs/Sweep) against an untrusted "
+                   "certificate of the table contents regenerated by the translator (Gen/MagicCert.lean); no native_decide"]
 
     def streams(self):
         req = os.path.join(self.wd, "c07.req")
@@ -239,9 +238,9 @@ SPEC_MOVES_RE = re.compile(r"check=(\w+) n=(\d+) sorted=\[(.*?)\](?: F=(\S*))?")
 class C01(Check):
     pid = "C01"
     props_module = "TcheranVerif.Props.C01"
-    gen_modules = ("Magics",)
+    gen_modules = ("Magics", "MagicCert")
     # the `_tables` corollaries inherit the one native_decide of Props.C07 (magic-table sweep)
-    allow_native = ("native_decide",)
+    allow_native = ()   # no native_decide anywhere any more (kernel-only sweep, Proofs/Sweep)
     rule = ("positions from the corpus (repo bench/perft/SEE/SAN/WAC FENs + past failures), Rules-chosen random "
             "playouts, random legal placements (sparse and dense) and e.p./pin/castling templates; distinct = "
             "distinct FEN; non-trivial = at least one of: in check, e.p. target set, pinned man, castling right, "
